@@ -26,7 +26,7 @@ PROPERTIES = {
     "C02": {
         "modules": C02_MODULES,
         "level": "proof",
-        "explanation": "the chain from a Python operator to emitted logic is decided link by link, each from the real source for symbolic widths and values: (1) every operator replacement of TypeQualifier yields the IR operator the statement assigns to that Python operator, over the operands in source order, with the Python-side result (68 obligations); (2) the comparison dispatch of PrepareAst (nested single_compare) falls back to the REFLECTED method with swapped operands, value = lhs OP rhs; all()/any() fold constants exactly when run-time elements cannot change the outcome (arrangements up to 3 elements); (3) the Python-side result of every arithmetic operator equals the documented semantics (C09 contracts: kind, width, wrapped value; bit-level BitVector operators bounded); (4) the backend writers BinOp/Compare/UnaryOp.write emit text that, read with numeric_std / std_logic_1164 semantics (specs/vhdl_ops.py), is well typed and has the documented type, width and value for every operator and operand-type combination the front end accepts (arithmetic, element-wise, concatenation with the left operand as most significant bits, shifts logical/arithmetic, comparisons, invert/negate/abs); (5) casts around operands and results (format_cast) carry the bits of the conversion matrix; nested slices and typed views keep their offsets (C13 contracts) and VhdlScope._format_ref writes a slice / constant index whose text denotes exactly the referenced bits of the parent for symbolic bounds and accumulated base offsets; (6) the two translation steps in between are structure preserving: IrGenerator._apply_impl evaluates the operands left to right and emits one IR node with the same operator over the operands' results in source order, _StmtAssembler.apply turns every IR statement kind into the vhdl node with the same operator, operands, result and assignment kind (signal assignment in concurrent, variable assignment in sequential contexts).",
+        "explanation": "the chain from a Python operator to emitted logic is decided link by link, each from the real source for symbolic widths and values: (1) every operator replacement of TypeQualifier yields the IR operator the statement assigns to that Python operator, over the operands in source order, with the Python-side result (68 obligations); (2) the comparison dispatch of PrepareAst (nested single_compare) falls back to the REFLECTED method with swapped operands, value = lhs OP rhs; all()/any() fold constants exactly when run-time elements cannot change the outcome (arrangements up to 3 elements); (3) the Python-side result of every arithmetic operator equals the documented semantics (C09 contracts: kind, width, wrapped value; bit-level BitVector operators bounded); (4) the backend writers BinOp/Compare/UnaryOp.write emit text that, read with numeric_std / std_logic_1164 semantics (specs/vhdl_ops.py), is well typed and has the documented type, width and value for every operator and operand-type combination the front end accepts (arithmetic, element-wise, concatenation with the left operand as most significant bits, shifts logical/arithmetic, comparisons, invert/negate/abs); (5) casts around operands and results (format_cast) carry the bits of the conversion matrix; nested slices and typed views keep their offsets (C13 contracts) and VhdlScope._format_ref writes a slice / constant index whose text denotes exactly the referenced bits of the parent for symbolic bounds and accumulated base offsets; (6) the two translation steps in between are structure preserving: IrGenerator._apply_impl evaluates the operands left to right and emits one IR node with the same operator over the operands' results in source order, _StmtAssembler.apply turns every IR statement kind into the vhdl node with the same operator, operands, result and assignment kind (signal assignment in concurrent, variable assignment in sequential contexts). Session 5: run-time index into a slice with a non-zero base offset is rejected; bitwise operators on run-time integers are rejected; negative cohdl.Integer constants are written as NATURAL like Python ints; `!=` of classes with __eq__ only is the inverted traced __eq__.",
         "assumptions": COMMON_ASSUME + BITLEVEL_ASSUME + VHDL_ASSUME + [
             "the numeric_std / std_logic_1164 meaning of the emitted operators is the trusted transcription specs/vhdl_ops.py + specs/vhdl_expr.py (no VHDL simulator is available to cross-check it)",
             "operand lemma: an operand expression writes text whose VHDL type and value are those of the CoHDL type and value of its .result (established by format_cast / format_vhdl_cast; format_value's reference chain _format_ref is covered for typed views and slices by the C13 contracts, not re-proved here)",
@@ -47,7 +47,7 @@ PROPERTIES = {
     "C03": {
         "modules": C05_MODULES + ["contracts.c08_temporaries", "contracts.c08_cleanup", "contracts.c03_lowering", "contracts.c03_condselect", "contracts.c04_reset", "contracts.c04_wrappers", "contracts.c02_assembler", "contracts.c13_types", "contracts.c06_stmts", "contracts.c02_frontend", "contracts.c03_decl", "contracts.c03_refvisit", "contracts.c13_refspec", "contracts.c03_out", "contracts.c10_frontend", "contracts.c03_match", "contracts.c02_replace", "contracts.c03_for", "contracts.c13_alias", "contracts.c03_with", "contracts.c03_if"],
         "level": "proof",
-        "explanation": "the statement is decided per lowering step, each proved from the real source: (1) the setter replacements of Signal/Variable/Temporary (<<=, .next, ^=, .push, @=, .value) accept exactly the documented target kinds and produce the assignment mode of the operator (C05 setter contracts); (2) IrGenerator._apply_impl lowers an assignment to exactly one SignalAssignment / SignalPush / VariableAssignment per open block according to mode, target kind and context kind (temporaries: immediate in sequential, continuous in concurrent contexts); (3) after an if/else execution continues in exactly the end blocks of both branches (25 x 2 arrangements of how branches end, incl. returns and state transitions), the If node being placed before its branches; (4) ir.Sequential._pushed_resettable_signals gives every pushed root -- also noreset roots and roots pushed only through a slice -- its default at the start of each step (reset_pushed), per event for arbitrary prior sets; (5) the process bodies built by std.sequential execute reset_pushed and then the user step exactly when trigger and step condition hold; (6) cleanup_bool_cast only replaces intermediates whose source is an intermediate, so a bool() taken before a later variable update keeps the old value.",
+        "explanation": "the statement is decided per lowering step, each proved from the real source: (1) the setter replacements of Signal/Variable/Temporary (<<=, .next, ^=, .push, @=, .value) accept exactly the documented target kinds and produce the assignment mode of the operator (C05 setter contracts); (2) IrGenerator._apply_impl lowers an assignment to exactly one SignalAssignment / SignalPush / VariableAssignment per open block according to mode, target kind and context kind (temporaries: immediate in sequential, continuous in concurrent contexts); (3) after an if/else execution continues in exactly the end blocks of both branches (25 x 2 arrangements of how branches end, incl. returns and state transitions), the If node being placed before its branches; (4) ir.Sequential._pushed_resettable_signals gives every pushed root -- also noreset roots and roots pushed only through a slice -- its default at the start of each step (reset_pushed), per event for arbitrary prior sets; (5) the process bodies built by std.sequential execute reset_pushed and then the user step exactly when trigger and step condition hold; (6) cleanup_bool_cast only replaces intermediates whose source is an intermediate, so a bool() taken before a later variable update keeps the old value. Session 5: `if` tests are the boolean cast of the tested value (c03_if); `with` blocks call __exit__ once on every path that leaves them (c03_with); the subject of a match and the iterable of a for-loop / comprehension are evaluated exactly once, in front of the selection (c03_match, c03_for); chained comparisons evaluate the middle operand once; the hoisted always expression is a separate driver (c04_reset, c07_drivers).",
         "assumptions": COMMON_ASSUME + [
             "VHDL signal / variable semantics (a signal assignment in a process takes effect after the process suspends, the last one wins, unassigned signals hold; variables update immediately; concurrent assignments are continuous) are those of the language standard -- the contracts decide which VHDL statement kind each CoHDL assignment becomes, not the standard's semantics",
             "conditional chains: the lowering of out.CondSelect (what if/elif chains, match statements and for-break chains become in the tracer's output) is under contract -- one case statement over a common value with constant choices, else the nested if chain in source order, default last (542 arrangements of condition kinds, defaults, returns / breaks / transitions, 1-2 open blocks); that the tracer BUILDS the CondSelect with the branches in source order (_prepare_ast.py ast.For / ast.Match / ast.If) is NOT",
@@ -64,7 +64,7 @@ PROPERTIES = {
     "C04": {
         "modules": ["contracts.core_models", "contracts.c04_reset", "contracts.c04_wrappers", "contracts.c04_misc", "contracts.c20_memory"],
         "level": "proof",
-        "explanation": "reset behaviour is decided at its two implementation points, both proved from the real source: (1) the process bodies std._context._sequential_impl builds (no reset / asynchronous / synchronous): for arbitrary truth values of trigger, reset and step condition the activation performs exactly reset_context followed by every on_reset action when reset is active (asynchronous: whatever the trigger; synchronous: at the trigger, whatever the step condition) and nothing else, otherwise reset_pushed + the user step when trigger and step condition hold; the sensitivity list contains the reset signal exactly for asynchronous resets; (2) ir.Sequential._pushed_resettable_signals expands reset_context into exactly one default assignment per root written or pushed in the context that has a default and is not noreset -- flags and default are those of the ROOT also when the access goes through a slice or view; roots without default or marked noreset get none; all objects are collected before the statements are rewritten (event streams enumerated, per-event contract for arbitrary prior sets).",
+        "explanation": "reset behaviour is decided at its two implementation points, both proved from the real source: (1) the process bodies std._context._sequential_impl builds (no reset / asynchronous / synchronous): for arbitrary truth values of trigger, reset and step condition the activation performs exactly reset_context followed by every on_reset action when reset is active (asynchronous: whatever the trigger; synchronous: at the trigger, whatever the step condition) and nothing else, otherwise reset_pushed + the user step when trigger and step condition hold; the sensitivity list contains the reset signal exactly for asynchronous resets; (2) ir.Sequential._pushed_resettable_signals expands reset_context into exactly one default assignment per root written or pushed in the context that has a default and is not noreset -- flags and default are those of the ROOT also when the access goes through a slice or view; roots without default or marked noreset get none; all objects are collected before the statements are rewritten (event streams enumerated, per-event contract for arbitrary prior sets). Session 5: std.Reset.__bool__ / active_high_signal / active_low_signal (level as a function of 'reset is active'); _sequential_impl rejects reset / on_reset without a clock; objects driven by the hoisted always expression are not reset inside the process. BOUNDED: reset_config_sweep (axi entity configurations; reset branch == declaration default for ClockDivider / continuous_counter / ToggleSignal).",
         "assumptions": COMMON_ASSUME + [
             "'an embedded coroutine returns to its first state': the state variable of a statemachine is an ordinary written signal with a default (ir.Statemachine.as_case_when), so it is covered as a resettable root; that as_case_when declares it with the first state as default is not under contract",
             "polarity: std.Reset.__bool__ / active_high_signal / active_low_signal are under contract (level of the result as a function of 'reset is active', both polarities, inside and outside a synthesizable context); the clock edge selection of std.Clock is modelled as an arbitrary truth value, its own definition is not under contract",
@@ -83,7 +83,7 @@ PROPERTIES = {
     "C10": {
         "modules": ["contracts.core_models", "contracts.c02_frontend", "contracts.c10_frontend", "contracts.c10_subset", "contracts.c11_frames"],
         "level": "other",
-        "explanation": "PROVED from the real source (tracer state abstracted to the calls the code makes): the comparison dispatch (nested single_compare: reflected method with swapped operands, 6 operators x implemented / NotImplemented on either side), the binary operator dispatch (nested overloaded_operator: lhs.__op__ first, rhs.__rop__ when that is missing or NotImplemented, rejection when neither applies), all()/any() over mixed constant / run-time elements (and/or yield the truth value; arrangements up to 3 elements), list and dict comprehensions with 0-2 conjunctive conditions over up to 3 elements (symbolic condition values). BOUNDED (labelled, never counted as proved): FunctionDefinition.bind_args against the CPython call itself for every signature shape (<= 2 positional-only, <= 2 positional-or-keyword, <= 2 keyword-only parameters, optional *args / **kwargs, all default patterns, functions and bound methods) and every call shape (<= n+1 positional arguments, <= 3 keywords incl. a foreign name): same binding, or a rejection exactly when CPython raises TypeError. Also PROVED: zero-argument super() binds to the __class__ cell of the defining class and the first argument (method of a middle class on an instance of a subclass). Also BOUNDED: PrepareAst._split_target against the CPython assignment statement (<= 5 targets, star anywhere or absent, sources of 0..7 elements: same split, rejection exactly on ValueError) and _ScopeBase._capture_env against LEGB (closure cell before module global before builtin, every placement of one free name). Added later: PROVED from the real source, the keyword collection of a call (apply_impl, ast.Call: explicit keywords and ** mappings in every order; a keyword given twice or a non-string key is rejected as CPython does) and the default values of local functions / lambdas (bound as the values CPython binds, in CPython's order); BOUNDED: bind_args leaves the caller's argument containers untouched (frame), the starred target is a list for list and tuple sources, the definition compiled for a functools.wraps wrapper is the wrapper's.",
+        "explanation": "PROVED from the real source (tracer state abstracted to the calls the code makes): the comparison dispatch (nested single_compare: reflected method with swapped operands, 6 operators x implemented / NotImplemented on either side), the binary operator dispatch (nested overloaded_operator: lhs.__op__ first, rhs.__rop__ when that is missing or NotImplemented, rejection when neither applies), all()/any() over mixed constant / run-time elements (and/or yield the truth value; arrangements up to 3 elements), list and dict comprehensions with 0-2 conjunctive conditions over up to 3 elements (symbolic condition values). BOUNDED (labelled, never counted as proved): FunctionDefinition.bind_args against the CPython call itself for every signature shape (<= 2 positional-only, <= 2 positional-or-keyword, <= 2 keyword-only parameters, optional *args / **kwargs, all default patterns, functions and bound methods) and every call shape (<= n+1 positional arguments, <= 3 keywords incl. a foreign name): same binding, or a rejection exactly when CPython raises TypeError. Also PROVED: zero-argument super() binds to the __class__ cell of the defining class and the first argument (method of a middle class on an instance of a subclass). Also BOUNDED: PrepareAst._split_target against the CPython assignment statement (<= 5 targets, star anywhere or absent, sources of 0..7 elements: same split, rejection exactly on ValueError) and _ScopeBase._capture_env against LEGB (closure cell before module global before builtin, every placement of one free name). Added later: PROVED from the real source, the keyword collection of a call (apply_impl, ast.Call: explicit keywords and ** mappings in every order; a keyword given twice or a non-string key is rejected as CPython does) and the default values of local functions / lambdas (bound as the values CPython binds, in CPython's order); BOUNDED: bind_args leaves the caller's argument containers untouched (frame), the starred target is a list for list and tuple sources, the definition compiled for a functools.wraps wrapper is the wrapper's. Session 5: the operator table of the ast.BinOp branch (13 operators x forward / reflected), constant comparison chains, `!=` for classes with __eq__ only, undefined free names (builtins dictionary), the definition cache is discarded on every exit of a compilation.",
         "assumptions": COMMON_ASSUME + [
             "bind_args only moves argument objects (it never inspects them): distinct marker objects per argument make each shape's comparison complete; shapes beyond the bound are not covered",
             "NOT decided: name classification (_ClassifyNames, ScopeRef), classes / inheritance / properties / __call__ emulation, subscripts, constant if / for / if-expressions, isinstance / type checks -- the remaining branches of the 1400-line apply_impl dispatcher and the whitelist of intrinsic builtins have no contract yet; 'all generated programs' is not approached by per-function contracts",
@@ -100,7 +100,7 @@ PROPERTIES = {
     "C12": {
         "modules": ["contracts.core_models", "contracts.c13_types", "contracts.c06_ports", "contracts.c12_instances", "contracts.c12_register", "contracts.c08_temporaries", "contracts.c08_cleanup", "contracts.c12_actuals", "contracts.c03_decl", "contracts.c06_text"],
         "level": "proof",
-        "explanation": "the structural half of the statement is decided function by function, each proved from the real source: (1) Entity._port_declarations emits exactly the declared ports, in declaration order, each line starting with the declared name and carrying the declared direction, and only returns when declared name == scope name (C06 contract, symbolic names); (2) cohdl.Entity.__init__ associates every formal with exactly the actual passed for it, rejects unknown names, missing actuals and incompatible actuals, and removes the default only from the object an instance output drives (a slice actual leaves the rest of its root initialised); (3) EntityInst._port_map / _generic_map list every formal once, in declaration order, with the text of its own actual for every order of the actuals dictionary; (4) VhdlAssembler.apply converts an entity template once (cache hit returns the converted entity, a new conversion is registered), declares its ports in order under their declared names, and gives every output port one buffer initialised with the port's default whenever it has one; (5) Library.from_top_entity lists every entity once, sub-entities before their users, over instantiation DAGs incl. shared templates; (6) _register_block / _register_context / on_block_exit attach to the innermost open block (stack depth 0-3); (7) ConvertInstance.apply keeps the assignment of an intermediate (or a slice of one) that is the actual of an instance port. BOUNDED: Entity.__init_subclass__ under inheritance (base / sibling / second-level classes adding ports in both orders): each class's declared and emitted interface is its inherited ports followed by its own, port dicts are not shared.",
+        "explanation": "the structural half of the statement is decided function by function, each proved from the real source: (1) Entity._port_declarations emits exactly the declared ports, in declaration order, each line starting with the declared name and carrying the declared direction, and only returns when declared name == scope name (C06 contract, symbolic names); (2) cohdl.Entity.__init__ associates every formal with exactly the actual passed for it, rejects unknown names, missing actuals and incompatible actuals, and removes the default only from the object an instance output drives (a slice actual leaves the rest of its root initialised); (3) EntityInst._port_map / _generic_map list every formal once, in declaration order, with the text of its own actual for every order of the actuals dictionary; (4) VhdlAssembler.apply converts an entity template once (cache hit returns the converted entity, a new conversion is registered), declares its ports in order under their declared names, and gives every output port one buffer initialised with the port's default whenever it has one; (5) Library.from_top_entity lists every entity once, sub-entities before their users, over instantiation DAGs incl. shared templates; (6) _register_block / _register_context / on_block_exit attach to the innermost open block (stack depth 0-3); (7) ConvertInstance.apply keeps the assignment of an intermediate (or a slice of one) that is the actual of an instance port. BOUNDED: Entity.__init_subclass__ under inheritance (base / sibling / second-level classes adding ports in both orders): each class's declared and emitted interface is its inherited ports followed by its own, port dicts are not shared. Session 5: the trial assignment of actuals works for every port type incl. enumerations and leaves the declared port objects untouched (both places); scalar formals need actuals of the same scalar type; the instantiation statement names the architecture as written (c06_text); ConvertInstance.apply keeps the ROOT of a view actual alive.",
         "extra": ["contracts.c12_extra.interface_sweep"],
         "assumptions": COMMON_ASSUME + [
             "behavioural equivalence of instantiation and inlining 'for all input sequences' is the VHDL semantics of component instantiation with named association, given the structural facts above; it is not executed (no simulator)",
@@ -117,7 +117,7 @@ PROPERTIES = {
     "C14": {
         "modules": ["contracts.core_models", "contracts.c14_fifo", "contracts.c14_views", "contracts.c14_indirect"],
         "level": "proof",
-        "explanation": "step contracts of the REAL methods of std.Fifo and std.Stack over a ghost model of clocked signals, for SYMBOLIC capacity N (power of two or not), index values, memory content and data. Fifo: _next_index(i) == (i+1) mod N; the concurrent block of __init__ drives empty <=> size == 0 and full <=> size == N-1 (capacity N-1); against the queue view size = (wr-rd) mod N, elem(k) = mem[(rd+k) mod N]: push appends the element and keeps every other position, pop returns the oldest element and shifts the rest, push and pop in the same clock (either order) do both -- the inductive step of 'delivers elements in exactly the order they were pushed, without loss or duplication'; locally, for shared and for separate (synchronised) index signals, push writes at and advances the producer's own index, pop / front read at and pop advances the consumer's own index. Stack (both modes): push / pop / front / reset / empty / full / size against the list view, drop-old mode discarding exactly the oldest element on a push to a full stack.",
+        "explanation": "step contracts of the REAL methods of std.Fifo and std.Stack over a ghost model of clocked signals, for SYMBOLIC capacity N (power of two or not), index values, memory content and data. Fifo: _next_index(i) == (i+1) mod N; the concurrent block of __init__ drives empty <=> size == 0 and full <=> size == N-1 (capacity N-1); against the queue view size = (wr-rd) mod N, elem(k) = mem[(rd+k) mod N]: push appends the element and keeps every other position, pop returns the oldest element and shifts the rest, push and pop in the same clock (either order) do both -- the inductive step of 'delivers elements in exactly the order they were pushed, without loss or duplication'; locally, for shared and for separate (synchronised) index signals, push writes at and advances the producer's own index, pop / front read at and pop advances the consumer's own index. Stack (both modes): push / pop / front / reset / empty / full / size against the list view, drop-old mode discarding exactly the oldest element on a push to a full stack. Session 5: the *_indirect flags of Fifo / SyncFlag are driven concurrently from the flag of the current context's role; SyncFlag._impl_tx_delay returns True exactly on the first call (c14_indirect).",
         "assumptions": COMMON_ASSUME + [
             "signal semantics of a clocked context (a scheduled value becomes visible at the next clock, the last assignment wins, reads see the old value; memory writes use the index value at the time of the access) are assumed -- they are the VHDL meaning of the statements the methods emit (C03)",
             "object state as established by __init__ (index signals of type Unsigned.upto(N-1) resp. upto(N), i.e. width bit_length, N memory elements, the flags) is the precondition of the step contracts; __init__ itself is under contract only for its empty/full block",
@@ -136,7 +136,7 @@ PROPERTIES = {
     "C20": {
         "modules": ["contracts.core_models", "contracts.c09_arith", "contracts.c13_types", "contracts.c13_views", "contracts.c20_regs", "contracts.c20_axi", "contracts.c20_memory"],
         "level": "other",
-        "explanation": "only the per-function half of the statement is within reach of contracts and is what this check decides: (0) PROVED with a sidecar loop invariant (one iteration = one clock, arbitrary valid timing on both write channels, either order): Axi4Light.await_write_request returns exactly the address/prot presented in the clock the address channel was taken and the data/strobe presented in the clock the data channel was taken, leaves the loop exactly when both were taken and withdraws each ready once its channel was taken; send_read_resp / send_write_response raise valid together with the payload and lower it only in a clock in which ready was seen, await_read_request offers ready, withdraws it only after valid was seen and returns the payload of that clock (`await` on a handshake signal = clock boundary in which the signal is high); the dispatch loops proc_read / proc_write of connect_addr_map serve every request with exactly one response, read exactly the first register whose range contains the address (response = its value, 0 for an unmapped address) resp. write exactly that register once with (address, data, Mask(stretch(strobe, 8))) and no register for an unmapped address (0-3 registers, arbitrary containment); (1a) PROVED for symbolic offsets: RegisterObject.__init__ and RegFile.__init__ place an object at parent's GLOBAL offset + own offset (so decode addresses add up over every level of nesting); BOUNDED: reg32.Output._on_write_ / Input._on_read_ executed natively for 10 placements of the signal inside the word (offset / padding / lsbs / msbs), all 16 byte strobes, old and written values, against an integer reference (exactly the strobed bytes change); (1) PROVED from the real source for symbolic address width, address, offset and size: RegisterObject._contains_addr_(addr) <=> offset <= addr < offset + size on both the shift-compare path (power-of-two size at an aligned offset) and the range-compare path -- 'exactly the addressed register', 'unmapped addresses select nothing'; (2) mechanical and exhaustive over the source: every stage of the bus write path that receives the byte-strobe mask applies it, hands it on, or stores nothing (known finding: field-based Register drops it); (3) BOUNDED (labelled): stretch(strb, k) and Mask.apply / apply_mask give new bits exactly in the strobed bytes. What the coroutine contracts establish is per call and at source level (the order of assignments and clock boundaries of each coroutine, one response per request in each dispatch iteration). NOT decided: that the state machines the compiler emits for these coroutines realise that order clock-accurately (C01, not applicable to this technique), the interplay of the read and write processes, and the master's view of ready/valid over whole transaction sequences; no simulator is available.",
+        "explanation": "only the per-function half of the statement is within reach of contracts and is what this check decides: (0) PROVED with a sidecar loop invariant (one iteration = one clock, arbitrary valid timing on both write channels, either order): Axi4Light.await_write_request returns exactly the address/prot presented in the clock the address channel was taken and the data/strobe presented in the clock the data channel was taken, leaves the loop exactly when both were taken and withdraws each ready once its channel was taken; send_read_resp / send_write_response raise valid together with the payload and lower it only in a clock in which ready was seen, await_read_request offers ready, withdraws it only after valid was seen and returns the payload of that clock (`await` on a handshake signal = clock boundary in which the signal is high); the dispatch loops proc_read / proc_write of connect_addr_map serve every request with exactly one response, read exactly the first register whose range contains the address (response = its value, 0 for an unmapped address) resp. write exactly that register once with (address, data, Mask(stretch(strobe, 8))) and no register for an unmapped address (0-3 registers, arbitrary containment); (1a) PROVED for symbolic offsets: RegisterObject.__init__ and RegFile.__init__ place an object at parent's GLOBAL offset + own offset (so decode addresses add up over every level of nesting); BOUNDED: reg32.Output._on_write_ / Input._on_read_ executed natively for 10 placements of the signal inside the word (offset / padding / lsbs / msbs), all 16 byte strobes, old and written values, against an integer reference (exactly the strobed bytes change); (1) PROVED from the real source for symbolic address width, address, offset and size: RegisterObject._contains_addr_(addr) <=> offset <= addr < offset + size on both the shift-compare path (power-of-two size at an aligned offset) and the range-compare path -- 'exactly the addressed register', 'unmapped addresses select nothing'; (2) mechanical and exhaustive over the source: every stage of the bus write path that receives the byte-strobe mask applies it, hands it on, or stores nothing (known finding: field-based Register drops it); (3) BOUNDED (labelled): stretch(strb, k) and Mask.apply / apply_mask give new bits exactly in the strobed bytes. What the coroutine contracts establish is per call and at source level (the order of assignments and clock boundaries of each coroutine, one response per request in each dispatch iteration). NOT decided: that the state machines the compiler emits for these coroutines realise that order clock-accurately (C01, not applicable to this technique), the interplay of the read and write processes, and the master's view of ready/valid over whole transaction sequences; no simulator is available. Session 5 (BOUNDED): field_extract_sweep (Register._from_bits_ for 7 underlying field types x offsets x data words), layout_sweep (_flatten_ accepts exactly the disjoint layouts of multi-word objects / array elements).",
         "assumptions": COMMON_ASSUME + [
             "first-match dispatch over the flattened register list (connect_addr_map: `for reg in regs: if reg._contains_addr_(addr): ...; break`) selects exactly one register because _flatten_ asserts strictly increasing, non-overlapping ranges; that assertion and the loop are read, not under contract",
             "coroutine contracts: `await` on a handshake signal is modelled as a clock boundary in which that signal is high, coroutine calls run to completion; the clock-accurate translation of coroutines into state machines is C01's subject and is assumed here",
@@ -152,7 +152,7 @@ PROPERTIES = {
     "C17": {
         "modules": ["contracts.core_models", "contracts.c17_proofs", "contracts.c09_bounded", "contracts.c13_types", "contracts.c13_views", "contracts.c13_refspec", "contracts.c02_replace"],
         "level": "other",
-        "explanation": "two layers. PROVED from the real source (number of members enumerated, member widths symbolic): Record._make_serializable assigns member i the slice [w_0+..+w_i-1 : w_0+..+w_{i-1}] (first member at bit 0, contiguous, total = sum) and recomputes the layout unless the class' OWN __dict__ holds one (an inherited layout is not reused); Record._get_reverse_elem_list yields the members in reverse DECLARATION order for every construction order of the instance. BOUNDED (labelled, never counted as proved): the real std.to_bits / from_bits / count_bits / Serialized / BitField are executed on every bit pattern of every type composition of a pool (Bit, bool, BitVector/Unsigned/Signed, Enum/FlagEnum incl. sparse, SFixed/UFixed, cohdl.Array, std.Array incl. nested and of records, records nested / inherited twice / empty-derived / templated with nested templated members, records holding arrays of records) up to 10 (quick) / 13 (thorough) bits and compared with a reference decoding written from the property statement: decode, round trip, width == count_bits, wrong widths rejected, keyword construction in every order, Serialized.from_raw/value/bits, BitField field reads and writes touching exactly the declared range.",
+        "explanation": "two layers. PROVED from the real source (number of members enumerated, member widths symbolic): Record._make_serializable assigns member i the slice [w_0+..+w_i-1 : w_0+..+w_{i-1}] (first member at bit 0, contiguous, total = sum) and recomputes the layout unless the class' OWN __dict__ holds one (an inherited layout is not reused); Record._get_reverse_elem_list yields the members in reverse DECLARATION order for every construction order of the instance. BOUNDED (labelled, never counted as proved): the real std.to_bits / from_bits / count_bits / Serialized / BitField are executed on every bit pattern of every type composition of a pool (Bit, bool, BitVector/Unsigned/Signed, Enum/FlagEnum incl. sparse, SFixed/UFixed, cohdl.Array, std.Array incl. nested and of records, records nested / inherited twice / empty-derived / templated with nested templated members, records holding arrays of records) up to 10 (quick) / 13 (thorough) bits and compared with a reference decoding written from the property statement: decode, round trip, width == count_bits, wrong widths rejected, keyword construction in every order, Serialized.from_raw/value/bits, BitField field reads and writes touching exactly the declared range. Session 5: Offset / Slice.simplify (frame clause) and the reflected `@` replacement also count here. BOUNDED: template_key_sweep (keys of SFixed / UFixed specialisations are equal exactly for equal formats).",
         "assumptions": COMMON_ASSUME + [
             "the dispatch of to_bits/from_bits (_FromBits.__call__, std.Array._from_bits_/_to_bits_, Enum/SFixed/UFixed/BitField adapters) is traced higher-order code over type-qualified values: covered by the bounded sweep only",
             "'identical in emitted logic' is not executed (no VHDL simulator): serialisation in a synthesizable context runs the same Python functions on signals; the emitted slices/concats rest on the slice-offset contracts of C02/C13",
@@ -202,7 +202,7 @@ PROPERTIES = {
     "C11": {
         "modules": ["contracts.core_models", "contracts.c11_frames", "contracts.c06_sensitivity"],
         "level": "proof",
-        "explanation": "per-item reasons why compilation is history independent: (1) exception-safe frames -- the real bodies of the functions that set global scratch state (statemachine singleton, block stack, entity instantiation info) are executed symbolically with every uncontracted callee returning OR raising, and on every exit the state is proved restored; (2) Entity._library_declaration is proved to emit library clauses in order of first use without iterating a set of strings; (3) a mechanical, exhaustive inventory of every module/class-level state written from a function, each item classified (scratch / cache / registry / per-entity), an unclassified item makes the check undecided; (4) bounded stand-in: compile histories of length <= 2 over a pool of accepted and rejected designs and several hash seeds must give byte-identical output; (5) ConvertPythonInstance.__exit__ is proved to leave no cached function definition behind (the cache keeps the values of the globals a function used: its key does not determine its content) and to discard every instantiation info; the history pool contains one entity compiled under two values of a module global",
+        "explanation": "per-item reasons why compilation is history independent: (1) exception-safe frames -- the real bodies of the functions that set global scratch state (statemachine singleton, block stack, entity instantiation info) are executed symbolically with every uncontracted callee returning OR raising, and on every exit the state is proved restored; (2) Entity._library_declaration is proved to emit library clauses in order of first use without iterating a set of strings; (3) a mechanical, exhaustive inventory of every module/class-level state written from a function, each item classified (scratch / cache / registry / per-entity), an unclassified item makes the check undecided; (4) bounded stand-in: compile histories of length <= 2 over a pool of accepted and rejected designs and several hash seeds must give byte-identical output; (5) ConvertPythonInstance.__exit__ is proved to leave no cached function definition behind (the cache keeps the values of the globals a function used: its key does not determine its content) and to discard every instantiation info; the history pool contains one entity compiled under two values of a module global; extern entities are registered for the discard of their cached template; the address map of an axi entity is cached per class (history designs v_axi_base / v_axi_derived); a statemachine rejected by the path check leaves no active StatemachineContext.",
         "assumptions": COMMON_ASSUME + [
             "in exception-safety mode an uncontracted callee either returns an opaque value or raises; it does not itself modify the scratch state under consideration (callees that do are under contract: StatemachineContext.enter/finish are interpreted)",
             "byte-identity of the output for ARBITRARY histories is not decided as such: the frame obligations, the inventory classification and the bounded sweep are the per-item reasons it can fail",
@@ -220,7 +220,7 @@ PROPERTIES = {
     "C07": {
         "modules": ["contracts.core_models", "contracts.c13_types", "contracts.c07_drivers", "contracts.c07_always", "contracts.c12_instances", "contracts.c03_refvisit", "contracts.c07_scopes", "contracts.c06_names"],
         "level": "proof",
-        "explanation": "the usage check of ir.EntityTemplate.__init__ is proved against a per-event contract stated for ARBITRARY ghost maps (writer / user per root): a write or push to an input port, a second writer (context or instance output, in either order, slices and views through their root), or a variable / intermediate used by a second context is rejected, otherwise the maps are updated for exactly that root; the instance loop treats every output port (also two outputs of the same instance) as a driver. By induction on the event stream a normal return implies one driver per root. Known findings: the always-block of a sequential context is not a separate driver.",
+        "explanation": "the usage check of ir.EntityTemplate.__init__ is proved against a per-event contract stated for ARBITRARY ghost maps (writer / user per root): a write or push to an input port, a second writer (context or instance output, in either order, slices and views through their root), or a variable / intermediate used by a second context is rejected, otherwise the maps are updated for exactly that root; the instance loop treats every output port (also two outputs of the same instance) as a driver. By induction on the event stream a normal return implies one driver per root. The hoisted always expression of a sequential context is a SEPARATE driver / user (stream cases: a signal written in both, a process Variable read by the always expression are rejected; Sequential.visit_objects delivers always expression, sensitivity signals and body once each and can leave the always expression out); an inout port of an instance on an input port of the entity is rejected. convert_sequential replaces every temporary of the always expression, also inside reference paths, by a signal. complete_setup gives every object of a scope its own name (two objects with one name would be one VHDL signal with the drivers of both). BOUNDED: AliasScope keeps one alias map per architecture (all operation sequences <= 4 / 5 over <= 2 / 3 scopes, real class).",
         "assumptions": COMMON_ASSUME + [
             "identity maps (IdMap) are maps keyed by object identity; the ghost maps answer membership arbitrarily but consistently",
             "every IR statement reports all objects it writes / reads through visit_objects: decided class by class by the mechanical enumeration contracts.c07_visit.visit_completeness (real constructors, marker objects, report + replace); Event / EventGroup / Statemachine / Sequential are covered through their parts only",
@@ -235,7 +235,7 @@ PROPERTIES = {
     "C08": {
         "modules": ["contracts.core_models", "contracts.c08_temporaries", "contracts.c08_cleanup", "contracts.c03_refvisit", "contracts.c12_actuals", "contracts.c02_assembler", "contracts.c07_always", "contracts.c03_if"],
         "level": "proof",
-        "explanation": "the definite-assignment analysis of compiler-generated intermediates (detect_uninitialized_temporaries / search_invalid_temporaries) is proved sound against the textbook definite-assignment semantics of if / case (with and without default) / sequence by structural induction: sidecar loop invariants for the statement loop and the case-branch loop, the function's own contract as induction hypothesis for recursive calls, sets of object identities as z3 sets; every read (direct or through a reference path) is shown to reach the check; cleanup_unused is proved to remove only assignments whose root is read nowhere; StatemachineContext._check_temporaries is proved to accept a state only if the first access to every intermediate is a write",
+        "explanation": "the definite-assignment analysis of compiler-generated intermediates (detect_uninitialized_temporaries / search_invalid_temporaries) is proved sound against the textbook definite-assignment semantics of if / case (with and without default) / sequence by structural induction: sidecar loop invariants for the statement loop and the case-branch loop, the function's own contract as induction hypothesis for recursive calls, sets of object identities as z3 sets; every read (direct or through a reference path) is shown to reach the check; cleanup_unused is proved to remove only assignments whose root is read nowhere; StatemachineContext._check_temporaries is proved to accept a state only if the first access to every intermediate is a write; case subjects and choices are checked together with the run-time indices of their reference paths, inline-code results are definitions, event-guarded blocks are conditional; the test of every `if` is a boolean cast without reference path (c03_if); convert_sequential replaces every temporary of an always expression by a signal (c07_always).",
         "assumptions": COMMON_ASSUME + [
             "id() is injective on live objects; Python sets of ids are mathematical sets",
             "IR statements report every object they read / write through visit_objects and store the replacement a visitor returns: decided per class by the enumeration contracts.c07_visit.visit_completeness, which runs with this property too (the cleanup passes replace objects through it)",
@@ -253,7 +253,7 @@ PROPERTIES = {
     "C06": {
         "modules": C06_MODULES,
         "level": "proof",
-        "explanation": "clauses of C06 that are per-function facts are proved from the real source: name uniquification (complete_setup, loop invariants over uninterpreted strings: every name is new in its scope chain and against all reserved words), entity header names = architecture names, case statements end in `when others`, sensitivity join, cast typing (format_cast lemma shared with C05); two finite enumerations over the emitter source (reserved set covers every emitted predefined identifier; text templates have balanced parentheses). Added later, all from the real source: every declared name is a VALID identifier (uninterpreted predicate; known facts: the result of VhdlScope._valid_identifier is valid -- BOUNDED exhaustive sweep against the LRM grammar -- and a valid identifier followed by a positive decimal counter is valid); case statements / selected assignments only return when their choice texts are pairwise distinct (symbolic strings); comment texts and assertion messages cannot leave their comment / string literal (enumerated texts with every line-break character and quotation marks); library clauses cover extern entities; port-less entities get no empty port clause and a terminated instantiation statement; user reserved names are honoured case-insensitively",
+        "explanation": "clauses of C06 that are per-function facts are proved from the real source: name uniquification (complete_setup, loop invariants over uninterpreted strings: every name is new in its scope chain and against all reserved words), entity header names = architecture names, case statements end in `when others`, sensitivity join, cast typing (format_cast lemma shared with C05); two finite enumerations over the emitter source (reserved set covers every emitted predefined identifier; text templates have balanced parentheses). Added later, all from the real source: every declared name is a VALID identifier (uninterpreted predicate; known facts: the result of VhdlScope._valid_identifier is valid -- BOUNDED exhaustive sweep against the LRM grammar -- and a valid identifier followed by a positive decimal counter is valid); case statements / selected assignments only return when their choice texts are pairwise distinct (symbolic strings); comment texts and assertion messages cannot leave their comment / string literal (enumerated texts with every line-break character and quotation marks); library clauses cover extern entities; port-less entities get no empty port clause and a terminated instantiation statement; user reserved names are honoured case-insensitively; enumeration literals are legal identifiers, distinct per type and reserved in their scope; the selector of a case / selected assignment on an element of an array is written in the element type; scalar and vector port associations need the declared type of the formal (Entity.__init__, with C12); Array._assign accepts only arrays of the same size.",
         "assumptions": COMMON_ASSUME + VHDL_ASSUME + [
             "strings are uninterpreted (sort Str with lower/strip/concat/str(int) uninterpreted): no character-level reasoning inside complete_setup; the character-level fact (VhdlScope._valid_identifier returns a basic identifier) is a bounded exhaustive check over strings of length <= 4 (quick) / 5 (thorough) over one representative per character class, not a proof",
             "termination of the doubling loop of the name search is not proved",
@@ -271,7 +271,7 @@ PROPERTIES = {
     "C13": {
         "modules": C13_MODULES,
         "level": "proof",
-        "explanation": "the two lazily caching metaclass __getitem__ functions (_BitVector, _TypeQualifier) are proved, for an arbitrary cache state (= any history of first uses), to look up and store exactly the normalised key, return the cached class on a hit, and on a miss create exactly the classes with the bases the statement prescribes; qualified-object views (slice, index, iteration, .unsigned/.signed/.bitvector) are proved to keep root and qualifier and to denote exactly the aliased bit range; a bounded sweep checks the real classes under random creation orders",
+        "explanation": "the two lazily caching metaclass __getitem__ functions (_BitVector, _TypeQualifier) are proved, for an arbitrary cache state (= any history of first uses), to look up and store exactly the normalised key, return the cached class on a hit, and on a miss create exactly the classes with the bases the statement prescribes; qualified-object views (slice, index, iteration, .unsigned/.signed/.bitvector) are proved to keep root and qualifier and to denote exactly the aliased bit range; a bounded sweep checks the real classes under random creation orders; parametrising a parametrised primitive yields the family's regular class (nothing is derived from the parametrised type); Offset / Slice.simplify do not touch the list object shared with copies; left / right / msb / lsb request exactly the documented sub-range; cast views are written with the VHDL kind of their class (format_vhdl_cast), one-element slices keep the direction (_format_ref).",
         "assumptions": COMMON_ASSUME + [
             "type(name, bases, ns) creates a fresh class that is a subclass of exactly the reflexive-transitive closure of bases (CPython data model)",
             "recursive uses K[...] inside __getitem__ denote the canonical class of their parameters (induction on the nesting rank of the parameter: Unsigned[n] -> Unsigned, BitVector[n] -> BitVector -> base)",
@@ -290,7 +290,7 @@ PROPERTIES = {
     "C05": {
         "modules": C05_MODULES + ["contracts.c12_instances"],  # port connections: cohdl.Entity.__init__ (only that contract of the module is tagged C05)
         "level": "proof",
-        "explanation": "acceptance and converted value of every primitive construction / assignment (Unsigned, Signed, BitVector, Bit, BitState) are proved equal to the conversion matrix of the statement for all widths and values; the backend cast selection (format_cast) is proved, for every (target root kind, view, whole/slice, value kind, literal/run-time) combination the front end accepts and all widths, to emit text whose numeric_std type is the declared object's type and whose bits are the converted bits; bit copies are bounded-checked natively",
+        "explanation": "acceptance and converted value of every primitive construction / assignment (Unsigned, Signed, BitVector, Bit, BitState) are proved equal to the conversion matrix of the statement for all widths and values; the backend cast selection (format_cast) is proved, for every (target root kind, view, whole/slice, value kind, literal/run-time) combination the front end accepts and all widths, to emit text whose numeric_std type is the declared object's type and whose bits are the converted bits; bit copies are bounded-checked natively; port connections (cohdl.Entity.__init__: same width, same declared vector / scalar type); Array._assign; _Boolean.__init__ accepts exactly the representable literals.",
         "assumptions": COMMON_ASSUME + BITLEVEL_ASSUME + VHDL_ASSUME + [
             "the bit-copy part of _assign (Span.apply_zip, bin() round trips) is opaque to the prover and assumed not to raise: acceptance is proved, the stored value is checked by bounded native enumeration only",
             "format_cast lemma assumes the operand text has the VHDL type of the value's CoHDL type (format_value / format_vhdl_cast establish it; format_vhdl_cast is under contract as well)",
@@ -310,7 +310,7 @@ PROPERTIES = {
     "C09": {
         "modules": C05_MODULES + ["contracts.c02_replace", "contracts.c02_frontend", "contracts.c13_types", "contracts.c13_views", "contracts.c02_ops", "contracts.c09_tqparts"],
         "level": "proof",
-        "explanation": "every arithmetic / shift / comparison / conversion method of Unsigned, Signed, Integer and cohdl.op.truncdiv/rem is proved equal (kind, width, value; rejections) to the documented operator semantics for all widths and values, from the real source; bit-level primitives are assumed and checked by bounded native enumeration",
+        "explanation": "every arithmetic / shift / comparison / conversion method of Unsigned, Signed, Integer and cohdl.op.truncdiv/rem is proved equal (kind, width, value; rejections) to the documented operator semantics for all widths and values, from the real source; bit-level primitives are assumed and checked by bounded native enumeration; the emitted side of the comparison -- BinOp / Compare / UnaryOp.write -- and the views left / right / msb / lsb are under contract for this property as well.",
         "assumptions": COMMON_ASSUME + BITLEVEL_ASSUME + VHDL_ASSUME + [
             "compile-time folds that raise where the hardware would wrap (quotient overflow, division by zero, literal not representable in the vector operand) are rejections, outside the value contract",
         ],
